@@ -137,7 +137,7 @@ class C11Index1D(Harness):
         else:
             r = E.attempt(lambda: h[self._index(E, p, x)])
         shares = (not isinstance(r, (Raised, tuple))) and any(rb is sb for rb in r._binnings for sb in h._binnings)
-        mem = (not isinstance(r, (Raised, tuple))) and (bool(np.shares_memory(r.frequencies, h.frequencies)) or bool(np.shares_memory(r.errors2, h.errors2)))
+        mem = (not isinstance(r, (Raised, tuple))) and (bool(np.shares_memory(r.frequencies, h.frequencies)) or bool(np.shares_memory(r.errors2, h.errors2)) or bool(np.shares_memory(r._missed, h._missed)))
         return {"res": _snap_any(E, r), "after": snap1d(E, h), "shares_binning": shares, "shares_memory": mem, "source_right_flag": bool(h.binning.includes_right_edge)}
 
     def oracle(self, cx, p, x, obs):
@@ -323,7 +323,7 @@ class C11IndexND(Harness):
         else:
             r = E.attempt(lambda: h[idx])
         shares = (not isinstance(r, (Raised, tuple))) and any(rb is sb for rb in r._binnings for sb in h._binnings)
-        mem = (not isinstance(r, (Raised, tuple))) and (bool(np.shares_memory(r.frequencies, h.frequencies)) or bool(np.shares_memory(r.errors2, h.errors2)))
+        mem = (not isinstance(r, (Raised, tuple))) and (bool(np.shares_memory(r.frequencies, h.frequencies)) or bool(np.shares_memory(r.errors2, h.errors2)) or bool(np.shares_memory(r._missed, h._missed)))
         return {"res": _snap_any(E, r), "after": snapnd(E, h), "distinct": r is not h, "shares_binning": shares, "shares_memory": mem, "source_right_flags": [bool(b.includes_right_edge) for b in h._binnings]}
 
     def oracle(self, cx, p, x, obs):
